@@ -1,4 +1,5 @@
 import XlModel.Store
+import XlModel.Sst
 import XlModel.Drv.Util
 /-
 Line protocol of C12 (see harness/cmd/vh/c12.go).  Names are %-escaped, blobs
@@ -55,6 +56,38 @@ structure D where
   impl : Option St := none
   spec : Spec.S := {}
   taint : Bool := false
+  sst : Option Sst.St := none
+  sspec : Sst.Tab := []
+
+def sstState (st : Sst.St) : String :=
+  let t := match st.table with | some x => toString x.length | none => "nil"
+  s!"t={t} x={b2 st.index.isSome} sp={b2 st.spilled}"
+
+def showItems (t : Sst.Tab) : String :=
+  "P[" ++ " ".intercalate (t.map fun it => (match it.key with | some k => "k" ++ k | none => "r") ++ ":" ++ it.text) ++ "]"
+
+def showSOut : Sst.Out → String
+  | .none => "-"
+  | .str s => "S" ++ s
+  | .idx i => "I" ++ toString i
+
+def sItems : Nat → List String → Option Sst.Tab
+  | 0, [] => some []
+  | 0, _ => none
+  | k + 1, f :: key :: text :: r =>
+    match sItems k r with
+    | some xs => some (⟨if f = "1" then some key else none, text⟩ :: xs)
+    | none => none
+  | _, _ => none
+
+def sstOp (d : D) (op : Sst.Op) : D × String :=
+  match d.sst with
+  | none => (d, "no-sst")
+  | some st =>
+    let (st', o) := Sst.step st op
+    let (sp', so) := Sst.Spec.step d.sspec op
+    ({ d with sst := some st', sspec := sp' },
+      showSOut o ++ " " ++ sstState st' ++ " | " ++ showSOut so ++ s!" n={sp'.length}")
 
 def nat? (s : String) : Option Nat := s.toNat?
 
@@ -95,6 +128,27 @@ def both (d : D) (ops : List Op) : D × String :=
 def step (d : D) (w : List String) : D × String :=
   match w with
   | "case" :: _ => ({}, "case")
+  | "sopen" :: sp :: ip :: k :: rest =>
+    match nat? k with
+    | some kk =>
+      match sItems kk rest with
+      | some items =>
+        let st : Sst.St := { part := items, spilled := sp = "1", inPkg := ip = "1" }
+        ({ d with sst := some st, sspec := items }, "sok " ++ sstState st)
+      | none => (d, "bad-op")
+    | none => (d, "bad-op")
+  | ["sread"] => sstOp d .read
+  | ["sget", i] => match nat? i with | some n => sstOp d (.get n) | none => (d, "bad-op")
+  | ["siter", i] => match nat? i with | some n => sstOp d (.get n) | none => (d, "bad-op")
+  | ["scol", i] => match nat? i with | some n => sstOp d (.get n) | none => (d, "bad-op")
+  | ["sload"] => sstOp d .load
+  | ["sset", k, t] => sstOp d (.set k t)
+  | ["ssave"] =>
+    match d.sst with
+    | none => (d, "no-sst")
+    | some st =>
+      let st' := Sst.save st
+      ({ d with sst := some st' }, showItems st'.part ++ " " ++ sstState st' ++ " | " ++ showItems d.sspec)
   | "open" :: x :: s :: k :: rest =>
     match parseInt? x, parseInt? s, nat? k with
     | some xl, some sl, some kk =>
